@@ -61,6 +61,8 @@ def gen_object(rng, exact=False):
     freqs = [f0 * (1 + 0.37 * k) for k in range(nf)]
     if rng.random() < 0.3:
         freqs = [float('%.3g' % f) for f in freqs]
+    if rng.random() < 0.15:
+        freqs = [0.0] + freqs[:-1]               # the grid starts at the DC point
     lines.append('vd 0 set_frequency_vector ' + ' '.join(vlib.d2h(f) for f in freqs))
     scale = {'z': 50.0, 'y': 0.02, 'zin': 50.0}.get(t, 1.0)
     if rng.random() < 0.25:
@@ -85,7 +87,7 @@ def gen_object(rng, exact=False):
     elif zk == 'perf':
         for f in range(nf):
             lines.append('vd 0 set_fz0_vector %d %s' % (f, ' '.join(vlib.c2h(z) for z in c04n.z0_vector(rng, ports))))
-    return lines, dict(type=t, ports=ports, rows=rows, nf=nf, z0kind=zk)
+    return lines, dict(type=t, ports=ports, rows=rows, nf=nf, z0kind=zk, dc=(freqs[0] == 0.0))
 
 
 SPECS = ['s', 't', 'u', 'z', 'y', 'h', 'g', 'a', 'b', 'zin']
@@ -100,6 +102,9 @@ def gen_format(rng, obj, touchstone=False):
     if not touchstone and rng.random() < 0.7:
         cand = (['zin', 'prc', 'prl', 'src', 'srl'] if obj['type'] == 'zin' else
                 ['s', 'z', 'y', 'zin', 'prc', 'prl', 'src', 'srl', 'rl', 'vswr'] + (['il'] if obj['ports'] > 1 else []) + (['t', 'u', 'h', 'g', 'a', 'b'] if obj['ports'] == 2 else []))
+        if obj.get('dc'):
+            # an equivalent R-L / R-C circuit has no meaning at 0 Hz
+            cand = [q_ for q_ in cand if q_ not in ('prc', 'prl', 'src', 'srl')]
         parts = []
         for _ in range(rng.randint(1, 4)):
             q = rng.choice(cand)
@@ -120,7 +125,7 @@ def gen_format(rng, obj, touchstone=False):
             p = rng.choice(SPECS)
             parts.append(p + rng.choice(['', 'ri', 'ma', 'db', 'Ri', 'MA']))
         else:
-            parts.append(rng.choice(['prc', 'prl', 'src', 'srl', 'il', 'rl', 'vswr', 'IL', 'VSWR', 'ri', 'ma', 'db']))
+            parts.append(rng.choice((['prc', 'prl', 'src', 'srl'] if not obj.get('dc') else []) + ['il', 'rl', 'vswr', 'IL', 'VSWR', 'ri', 'ma', 'db']))
     return rng.choice([',', ', ', ' , ']).join(parts)
 
 
